@@ -1,22 +1,242 @@
-// Package vsync provides a mutex whose Lock blocks durably inside a testing/synctest bubble
-// (a one-slot channel semaphore). sync.Mutex.Lock is not a durable block, so a goroutine waiting for
-// a sync.Mutex that another goroutine holds across a timed wait freezes the bubble's virtual clock.
-// The build overlay substitutes this type for sync.Mutex in the few files that do exactly that.
+// Package vsync is the synchronisation shim of Engines S and T. The build overlay redirects the
+// "sync" import of a few repository files here (tools/instr), so their sync.Mutex, sync.Once,
+// sync.Pool and `go` statements become the types and functions of this package.
+//
+// Without an active scheduler (Engine S, and every goroutine that is not a scheduler thread) the
+// types are plain, correct primitives whose blocking is durable inside a testing/synctest bubble
+// (sync.Mutex.Lock is not, and would freeze the virtual clock when a mutex is held across a timed
+// wait). With an active scheduler (Engine T) every operation of a registered thread is a scheduling
+// point: the thread parks, the scheduler picks who runs next, and exactly one thread runs at a time.
 package vsync
 
-import "sync"
+import (
+	"bytes"
+	"fmt"
+	"runtime"
+	"strconv"
+	gosync "sync"
+	"sync/atomic"
+	"testing/synctest"
+	"time"
+)
 
+// ---- scheduler --------------------------------------------------------------------------------------
+
+type state int
+
+const (
+	running state = iota
+	parked        // at a scheduling point, may be granted
+	blocked       // waits for a shim mutex held by somebody else
+	done
+)
+
+type thread struct {
+	id    int
+	name  string
+	grant chan struct{}
+	st    state
+	at    string
+	goid  int64
+	on    *Mutex
+}
+
+// Chooser is how the scheduler asks the explorer: n alternatives, index 0 = keep running the current
+// thread (when free is false) - any other answer is a preemption.
+type Chooser func(label string, n int, free bool) int
+
+type Scheduler struct {
+	mu      gosync.Mutex
+	threads []*thread
+	byGoid  map[int64]*thread
+	cur     *thread
+	choose  Chooser
+	Trace   []string
+	Horizon time.Duration // how far the clock may be advanced when nobody is enabled
+	Steps   int
+	MaxStep int
+	Err     string // "deadlock: ..." / "step limit"
+}
+
+var active atomic.Pointer[Scheduler]
+
+func goid() int64 {
+	var buf [64]byte
+	b := buf[:runtime.Stack(buf[:], false)]
+	b = bytes.TrimPrefix(b, []byte("goroutine "))
+	i := bytes.IndexByte(b, ' ')
+	n, _ := strconv.ParseInt(string(b[:i]), 10, 64)
+	return n
+}
+
+func (s *Scheduler) self() *thread {
+	id := goid()
+	s.mu.Lock()
+	defer s.mu.Unlock()
+	return s.byGoid[id]
+}
+
+// Explore runs body with a scheduler installed. body must start the threads with Go (directly or
+// through rewritten `go` statements) and return; Explore then schedules them until all are done,
+// a deadlock is found or the step limit is hit. It must be called inside a synctest bubble.
+func Explore(choose Chooser, horizon time.Duration, body func()) *Scheduler {
+	s := &Scheduler{byGoid: map[int64]*thread{}, choose: choose, Horizon: horizon, MaxStep: 5000}
+	if !active.CompareAndSwap(nil, s) {
+		panic("vsync: nested Explore")
+	}
+	defer active.Store(nil)
+	body()
+	s.loop()
+	return s
+}
+
+func (s *Scheduler) loop() {
+	waited := time.Duration(0)
+	for {
+		synctest.Wait()
+		s.mu.Lock()
+		var enabled []*thread
+		alive := 0
+		for _, t := range s.threads {
+			if t.st != done {
+				alive++
+			}
+			if t.st == parked {
+				enabled = append(enabled, t)
+			}
+		}
+		if alive == 0 {
+			s.mu.Unlock()
+			return
+		}
+		if len(enabled) == 0 {
+			// threads are blocked in real primitives (timers, channels, condition variables) or on mutexes
+			s.mu.Unlock()
+			if waited >= s.Horizon {
+				s.mu.Lock()
+				var desc []string
+				for _, t := range s.threads {
+					if t.st != done {
+						w := "a real primitive"
+						if t.st == blocked {
+							w = "a mutex"
+						}
+						desc = append(desc, fmt.Sprintf("%s blocked in %s after %q", t.name, w, t.at))
+					}
+				}
+				s.Err = fmt.Sprintf("deadlock: no thread can run (horizon %v): %v", s.Horizon, desc)
+				s.mu.Unlock()
+				return
+			}
+			step := s.Horizon / 8
+			if step <= 0 {
+				step = time.Millisecond
+			}
+			time.Sleep(step)
+			waited += step
+			continue
+		}
+		waited = 0
+		s.Steps++
+		if s.Steps > s.MaxStep {
+			s.Err = fmt.Sprintf("step limit %d exceeded (livelock?)", s.MaxStep)
+			s.mu.Unlock()
+			return
+		}
+		// canonical order: the current thread first when it can continue, then ascending ids
+		var order []*thread
+		curEnabled := false
+		for _, t := range enabled {
+			if t == s.cur {
+				curEnabled = true
+			}
+		}
+		if curEnabled {
+			order = append(order, s.cur)
+		}
+		for _, t := range enabled {
+			if t != s.cur {
+				order = append(order, t)
+			}
+		}
+		s.mu.Unlock()
+		idx := 0
+		if len(order) > 1 {
+			idx = s.choose("sched", len(order), !curEnabled)
+		}
+		t := order[idx]
+		s.mu.Lock()
+		if len(s.Trace) < 400 {
+			s.Trace = append(s.Trace, fmt.Sprintf("%s: %s", t.name, t.at))
+		}
+		s.cur = t
+		t.st = running
+		s.mu.Unlock()
+		t.grant <- struct{}{}
+	}
+}
+
+// Go starts f as a scheduler thread (a plain goroutine when no scheduler is active).
+func Go(f func()) { GoNamed("", f) }
+
+func GoNamed(name string, f func()) {
+	s := active.Load()
+	if s == nil {
+		go f()
+		return
+	}
+	s.mu.Lock()
+	t := &thread{id: len(s.threads), name: name, grant: make(chan struct{}), st: parked, at: "start"}
+	if t.name == "" {
+		t.name = fmt.Sprintf("T%d", t.id)
+	}
+	s.threads = append(s.threads, t)
+	s.mu.Unlock()
+	go func() {
+		id := goid()
+		s.mu.Lock()
+		t.goid = id
+		s.byGoid[id] = t
+		s.mu.Unlock()
+		<-t.grant
+		defer func() {
+			s.mu.Lock()
+			t.st = done
+			delete(s.byGoid, id)
+			s.mu.Unlock()
+		}()
+		f()
+	}()
+}
+
+// Point is a scheduling point of the calling thread (no-op for goroutines that are not threads).
+func Point(label string) {
+	s := active.Load()
+	if s == nil {
+		return
+	}
+	t := s.self()
+	if t == nil {
+		return
+	}
+	s.mu.Lock()
+	t.st, t.at = parked, label
+	s.mu.Unlock()
+	<-t.grant
+}
+
+// ---- Mutex ---------------------------------------------------------------------------------------------
+
+// Mutex is a one-slot channel semaphore (durably blocking); under a scheduler Lock and Unlock are
+// scheduling points and a thread that finds the mutex held is disabled until it is released.
 type Mutex struct {
-	once sync.Once
+	once gosync.Once
 	ch   chan struct{}
+	wmu  gosync.Mutex
+	wait []*thread
 }
 
 func (m *Mutex) init() { m.once.Do(func() { m.ch = make(chan struct{}, 1) }) }
-
-func (m *Mutex) Lock() {
-	m.init()
-	m.ch <- struct{}{}
-}
 
 func (m *Mutex) TryLock() bool {
 	m.init()
@@ -28,6 +248,48 @@ func (m *Mutex) TryLock() bool {
 	}
 }
 
+func (m *Mutex) Lock() {
+	m.init()
+	s := active.Load()
+	var t *thread
+	if s != nil {
+		t = s.self()
+	}
+	if t == nil {
+		m.ch <- struct{}{}
+		return
+	}
+	Point("Lock")
+	for !m.TryLock() {
+		s.mu.Lock()
+		t.st, t.on = blocked, m
+		s.mu.Unlock()
+		m.wmu.Lock()
+		m.wait = append(m.wait, t)
+		m.wmu.Unlock()
+		// the mutex may have been released between TryLock and the registration
+		if m.TryLock() {
+			m.dropWaiter(t)
+			s.mu.Lock()
+			t.st, t.on = running, nil
+			s.mu.Unlock()
+			return
+		}
+		<-t.grant
+	}
+}
+
+func (m *Mutex) dropWaiter(t *thread) {
+	m.wmu.Lock()
+	for i, w := range m.wait {
+		if w == t {
+			m.wait = append(m.wait[:i], m.wait[i+1:]...)
+			break
+		}
+	}
+	m.wmu.Unlock()
+}
+
 func (m *Mutex) Unlock() {
 	m.init()
 	select {
@@ -35,4 +297,82 @@ func (m *Mutex) Unlock() {
 	default:
 		panic("vsync: unlock of unlocked mutex")
 	}
+	if s := active.Load(); s != nil {
+		m.wmu.Lock()
+		ws := m.wait
+		m.wait = nil
+		m.wmu.Unlock()
+		s.mu.Lock()
+		for _, w := range ws {
+			if w.st == blocked {
+				w.st, w.on, w.at = parked, nil, "Lock (retry)"
+			}
+		}
+		s.mu.Unlock()
+		Point("Unlock")
+	}
 }
+
+// ---- Once ----------------------------------------------------------------------------------------------
+
+type Once struct {
+	done atomic.Bool
+	m    Mutex
+}
+
+func (o *Once) Do(f func()) {
+	Point("Once.Do")
+	if o.done.Load() {
+		return
+	}
+	o.m.Lock()
+	defer o.m.Unlock()
+	if !o.done.Load() {
+		defer o.done.Store(true)
+		f()
+	}
+}
+
+// ---- Pool ----------------------------------------------------------------------------------------------
+
+// Pool is a deterministic LIFO pool (never drops items, no per-P caches).
+type Pool struct {
+	New   func() any
+	mu    gosync.Mutex
+	items []any
+}
+
+func (p *Pool) Get() any {
+	Point("Pool.Get")
+	p.mu.Lock()
+	if n := len(p.items); n > 0 {
+		x := p.items[n-1]
+		p.items = p.items[:n-1]
+		p.mu.Unlock()
+		return x
+	}
+	p.mu.Unlock()
+	if p.New != nil {
+		return p.New()
+	}
+	return nil
+}
+
+func (p *Pool) Put(x any) {
+	Point("Pool.Put")
+	p.mu.Lock()
+	p.items = append(p.items, x)
+	p.mu.Unlock()
+}
+
+// ---- WaitGroup, RWMutex, Map, Cond: thin aliases (not scheduling points) ---------------------------------------
+
+type (
+	WaitGroup = gosync.WaitGroup
+	RWMutex   = gosync.RWMutex
+	Map       = gosync.Map
+	Cond      = gosync.Cond
+	Locker    = gosync.Locker
+)
+
+func NewCond(l Locker) *Cond { return gosync.NewCond(l) }
